@@ -37,6 +37,7 @@
 #include <veriblock/pop/storage/stored_alt_block_addon.hpp>
 #include <veriblock/pop/storage/stored_btc_block_addon.hpp>
 #include <veriblock/pop/storage/stored_vbk_block_addon.hpp>
+#include <veriblock/pop/blockchain/pop/counting_context.hpp>
 #include <veriblock/pop/serde.hpp>
 #include <veriblock/pop/stateless_validation.hpp>
 
@@ -599,6 +600,114 @@ static std::string op_memo(const std::string& id, const std::string& text, const
   return "OK " + std::to_string(reads) + " " + vh::hex(encode(v));
 }
 
+// ---------------------------------------------------------------- CountingContext vs PopData::estimateSize (C11)
+// count <maxsize> <maxatv> <maxvtb> <maxvbk> <seq>; seq = comma separated tokens <kind><n>[x<extra>], kind a|v|b:
+// n times: p = synthetic ATV / VTB / VbkBlock (extra = payout-info / btc-tx / nothing bytes); compare canFit(p) of the
+// REAL CountingContext with the ground truth "count below the limit of its kind and estimateSize(PopData{kept + p}) <=
+// maxsize"; if it fits: update(p) and keep p. Ground truth: the real PopData::estimateSize() and toVbkEncoding().size()
+// (always while the PopData is small, at every 255/256/65535/65536 crossing, on any discrepancy and at the end),
+// between those points the same sum maintained incrementally from the elements' estimateSize().
+struct CountParams : public AltChainParamsRegTest {
+  CountParams(uint32_t maxsize, size_t a, size_t v, size_t b) {
+    mMaxPopDataSize = maxsize;
+    mMaxATVsInAltBlock = a;
+    mMaxVTBsInAltBlock = v;
+    mMaxVbkBlocksInAltBlock = b;
+  }
+};
+static std::string op_count(const std::string& id, const std::vector<std::string>& a) {
+  uint64_t maxsize = vh::parse_hex64(a[0]);
+  size_t lim[3] = {(size_t)vh::parse_hex64(a[1]), (size_t)vh::parse_hex64(a[2]), (size_t)vh::parse_hex64(a[3])};
+  CountParams params((uint32_t)maxsize, lim[0], lim[1], lim[2]);
+  CountingContext ctx(params);
+  PopData pd;
+  pd.version = 1;
+  size_t sums[3] = {0, 0, 0};   // atvs, vtbs, vbks
+  size_t steps = 0, mism = 0;
+  std::string sizes;
+  auto incremental = [&](int kind, size_t extra) {
+    size_t n[3] = {pd.atvs.size(), pd.vtbs.size(), pd.context.size()};
+    size_t s[3] = {sums[0], sums[1], sums[2]};
+    if (kind >= 0) {
+      n[kind]++;
+      s[kind] += extra;
+    }
+    return 4 + singleBEValueSize((int64_t)n[0]) + s[0] + singleBEValueSize((int64_t)n[1]) + s[1] +
+           singleBEValueSize((int64_t)n[2]) + s[2];
+  };
+  auto boundary = [](size_t n) { return (n >= 254 && n <= 257) || (n >= 65534 && n <= 65537); };
+  std::stringstream ss(a[4]);
+  std::string tok;
+  while (std::getline(ss, tok, ',')) {
+    if (tok.empty()) continue;
+    char kind = tok[0];
+    size_t xpos = tok.find('x');
+    size_t n = std::stoul(tok.substr(1, xpos == std::string::npos ? std::string::npos : xpos - 1));
+    size_t extra = xpos == std::string::npos ? 0 : std::stoul(tok.substr(xpos + 1));
+    for (size_t i = 0; i < n; i++) {
+      steps++;
+      int k = kind == 'a' ? 0 : kind == 'v' ? 1 : 2;
+      ATV atv;
+      VTB vtb;
+      VbkBlock blk;
+      size_t psize = 0;
+      bool got = false;
+      if (k == 0) {
+        atv.version = 1;
+        atv.transaction.publicationData.payoutInfo = std::vector<uint8_t>(extra, 7);
+        atv.transaction.signatureIndex = (int64_t)steps;
+        psize = atv.estimateSize();
+        got = ctx.canFit(atv);
+      } else if (k == 1) {
+        vtb.version = 1;
+        vtb.transaction.bitcoinTransaction.tx = std::vector<uint8_t>(extra, 9);
+        psize = vtb.estimateSize();
+        got = ctx.canFit(vtb);
+      } else {
+        blk.setHeight((int32_t)steps);
+        psize = blk.estimateSize();
+        got = ctx.canFit(blk);
+      }
+      size_t cnt = k == 0 ? pd.atvs.size() : k == 1 ? pd.vtbs.size() : pd.context.size();
+      size_t total = pd.atvs.size() + pd.vtbs.size() + pd.context.size();
+      size_t inc = incremental(k, psize);
+      bool truth = cnt < lim[k] && inc <= maxsize;
+      bool exact = total <= 600 || boundary(cnt) || boundary(cnt + 1) || got != truth;
+      if (exact) {
+        PopData probe = pd;
+        if (k == 0) probe.atvs.push_back(atv); else if (k == 1) probe.vtbs.push_back(vtb); else probe.context.push_back(blk);
+        size_t est = probe.estimateSize();
+        if (est != inc) vh::oracle_fail(id, "harness bookkeeping differs from PopData::estimateSize");
+        if (total <= 600 || got != truth) {
+          size_t enc = probe.toVbkEncoding().size();
+          if (enc != est) {
+            vh::oracle_fail(id, "PopData::estimateSize=" + std::to_string(est) + " but toVbkEncoding().size()=" + std::to_string(enc));
+          }
+        }
+        truth = cnt < lim[k] && est <= maxsize;
+      }
+      if (got != truth && mism++ == 0) {
+        vh::oracle_fail(id, std::string("CountingContext::canFit=") + (got ? "true" : "false") + " but adding this " +
+                                (k == 0 ? "ATV" : k == 1 ? "VTB" : "VbkBlock") + " gives PopData of estimateSize " +
+                                std::to_string(inc) + " (limit " + std::to_string(maxsize) + "), counts atv/vtb/vbk=" +
+                                std::to_string(pd.atvs.size()) + "/" + std::to_string(pd.vtbs.size()) + "/" +
+                                std::to_string(pd.context.size()) + " (limits " + std::to_string(lim[0]) + "/" +
+                                std::to_string(lim[1]) + "/" + std::to_string(lim[2]) + ")");
+      }
+      if (got) {
+        if (k == 0) { ctx.update(atv); pd.atvs.push_back(atv); } else if (k == 1) { ctx.update(vtb); pd.vtbs.push_back(vtb); }
+        else { ctx.update(blk); pd.context.push_back(blk); }
+        sums[k] += psize;
+      }
+    }
+    sizes += (sizes.empty() ? "" : ",") + std::to_string(incremental(-1, 0));
+  }
+  size_t est = pd.estimateSize(), enc = pd.toVbkEncoding().size();
+  if (est != enc || est != incremental(-1, 0)) vh::oracle_fail(id, "final PopData: estimateSize/encoded size/bookkeeping differ");
+  return "OK " + std::to_string(steps) + " " + std::to_string(pd.atvs.size()) + "/" + std::to_string(pd.vtbs.size()) + "/" +
+         std::to_string(pd.context.size()) + " " + sizes;
+}
+
 // ---------------------------------------------------------------- stateless checks (C06)
 struct Params {
   AltChainParamsRegTest alt;
@@ -785,6 +894,7 @@ static std::string handle(const std::string& id, const std::string& op, const st
   if (op == "witness_atv") return witness_atv();
   if (op == "witness_vtb") return witness_vtb();
   if (op == "stats") return std::to_string(g_checked) + " " + std::to_string(g_check_valid);
+  if (op == "count" && a.size() == 5) return op_count(id, a);
   if (op == "memo" && a.size() == 3) {
     if (a[0] == "vbkblock") return op_memo<VbkBlock>(id, a[1], a[2]);
     if (a[0] == "btcblock") return op_memo<BtcBlock>(id, a[1], a[2]);
